@@ -82,11 +82,14 @@ def shape_ops(scope, spelling, urikey, kind, mask, idmode, local_id="r1"):
 PROV_ATTR_NAMES = [("P", l, Q("prov")) for l in ("type", "label", "value", "location", "role")]
 # an attribute name in the XML Schema namespace (PROV-XML binds 'xsd' to the URI without '#')
 XSD_ATTR_NAME = ("X", "maxLength", Q("xsd"))
+# a non-ASCII (but NCName) attribute-name local part
+NONASCII_ATTR_NAME = ("A", "cl\u00e9_\u6f22", Q("ex"))
 # values that compare equal in Python but differ in kind, placed on DIFFERENT records / attributes
 # (legal: the quantifier only excludes them inside one attribute)
 ACROSS = [("i_1", "b_T"), ("b_T", "i_1"), ("i_1", "f_1"), ("f_1", "i_1"), ("b_T", "f_1"), ("f_1", "b_T"),
           ("i_0", "b_F"), ("b_F", "i_0"), ("i_0", "f_0"), ("f_0", "b_F"), ("f_negzero", "f_0"), ("s_1", "i_1"),
-          ("s_True", "b_T"), ("d_utc", "d_naive")]
+          ("s_True", "b_T"), ("d_utc", "d_naive"), ("d_530", "d_530_as_utc"), ("d_530_as_utc", "d_530"),
+          ("i_2", "f_2_0"), ("f_2_0", "i_2")]
 
 PAIRS = [("s_a", "i_2"), ("i_2", "f_2_5"), ("b_T", "s_True"), ("l_lang", "s_a"), ("q_exA", "u_plain"),
          ("s_a", "s_quote"), ("i_1", "i_2"), ("d_naive", "d_utc"), ("s_1", "i_2"), ("l_exdt", "s_a")]
@@ -109,6 +112,8 @@ def extras(tier, which, spelling, urikey):
                 out.append((("at", pn, v),))
         for v in values.VALUES:
             out.append((("at", XSD_ATTR_NAME, v),))
+        for v in ("s_a", "s_uni", "i_2", "q_exA", "l_lang"):
+            out.append((("at", NONASCII_ATTR_NAME, v),))
         for a, b in PAIRS:
             out.append((("at", k, a), ("at", k, b)))
             out.append((("at", PROV_ATTR_NAMES[0], a), ("at", PROV_ATTR_NAMES[0], b)))
